@@ -164,6 +164,19 @@ CHECKS = {
         "the harness CFB reader (its projection of the pristine fixture satisfies all invariants).",
    technique="TLA+ allocator model + container invariants; full-state traces projected from real files validated by TLC",
    engine="cfb"),
+ "C09": dict(cat="model_checking", design="§4 C09",
+   text="spec/Transport.tla models the remote client's request loop (server list repetition, per-attempt body rebuild, failover on "
+        "temporary errors, 406 fall-back to no encoding, readers of ended attempts) with BodyIntact, AttemptsBounded, Fallback406, "
+        "FailoverInOrder, GiveUpRule, MinAttempts, SuccessHonest and Terminates checked by TLC (5 negative controls); spec/ChunkHash.tla "
+        "transcribes the block-buffered hasher with SplitIndependent (3 negative controls). Binding: generated write sequences on the real "
+        "APK block hasher; every transformer re-read after abandonment; every signer fed through read-size patterns; Transport "
+        "behaviours through the real CallRemote over HTTP/1.1 and HTTP/2 into the real handler, comparing per-attempt routing, "
+        "encodings, received body, outcome and embedded digests with the standalone run.",
+   note="Sampled read-size patterns and a seeded sample of transport behaviours at the quick tier. Connection resets mid-body are not "
+        "scripted (their classification depends on kernel timing). The one-late-read hazard of the model was not reproducible on the "
+        "real code and is not claimed.",
+   technique="TLA+ models of the client loop and block hasher checked by TLC; behaviours replayed on the real client, handler and hashers",
+   engine="transport"),
 }
 
 NOT_YET = {}
